@@ -723,7 +723,13 @@ def oracle_cases(ctx, deep):
             dict(base, eta='0.5,1.5,3,15,100'), dict(base, eta='2.5,25,250,inf', bias='X'),
             dict(base, eta='1,10,100,1000,0.1,0.01'), dict(base, eta='1.25,12.5,125', bias='Y'),
             dict(base, eta='30000,300000,10000000,inf', prob='0.1'),
-            dict(base, sizes='3x4,4x3,5', prob='0:0.06'), dict(base, sizes='2x3x4,4', code_class='Planar3DCode')]
+            dict(base, sizes='3x4,4x3,5', prob='0:0.06'), dict(base, sizes='2x3x4,4', code_class='Planar3DCode'),
+            # the low-error-rate regime (what the splitting method exists for): rates finer than 1e-4 and 1e-6
+            dict(base, prob='0:0.001:0.00025', eta='0.5'), dict(base, prob='0.00012,0.00016', eta='10'),
+            dict(base, prob='0.00003', eta='inf'),
+            dict(base, method='splitting', decoder_class='MatchingDecoder', prob='0.00001:0.00005:0.00001', eta='0.5'),
+            dict(base, prob='0:0.00001:0.0000025', eta='3'), dict(base, prob='0.0000001,0.0000005,0.000001', eta='1'),
+            dict(base, prob='0.00000025', eta='0.5')]
     for _ in range(400 if deep else 60):
         a = gen_args(rng, valid=True, big=deep)
         a['eta'] = gen_eta_string(rng, nonneg=True, integral_ok=False)
